@@ -40,7 +40,7 @@ namespace {
     }
     // a block of statements that builds/mutates one local and reports through t()/ts(); returns the local's name
     std::string piece(std::string &out, std::string &ret_expr) {
-      const int k = int(rng.below(18));
+      const int k = int(rng.below(20));
       switch (k) {
       case 0: {
         const std::string s = nm("s");
@@ -136,6 +136,28 @@ namespace {
         ret_expr = lit_int();
         return "";
       }
+      case 18: {
+        // a map literal with literal keys one of whose VALUE expressions can fail: an evaluation abandoned half way
+        // (possibly the very first one of this node) must leave nothing behind for the next
+        const std::string m = nm("mm");
+        const int site = next_site++;
+        const bool first = rng.chance(500);
+        out += "var " + m + " = [\"alpha\": " + (first ? "cbv(" + std::to_string(site) + ", 11)" : lit_int()) + ", \"beta\": " + (first ? lit_int() : "cbv(" + std::to_string(site) + ", 22)")
+            + ", \"gamma\": " + lit_int() + "]; t(" + m + ".size()); t(" + m + "[\"alpha\"]); t(" + m + "[\"beta\"]); t(" + m + "[\"gamma\"]); ";
+        ret_expr = m + "[\"beta\"]";
+        return m;
+      }
+      case 19: {
+        // arithmetic-assignment operators used as ordinary functions on a parameter that is bound to a literal
+        static const char *nums[] = {"7", "-5", "1 + 2", "2.5"};
+        switch (rng.below(3)) {
+        case 0: out += std::string("try { t(to_int(addfn(") + nums[rng.below(4)] + "))) } catch (e) { t(-3) }; "; break;
+        case 1: out += std::string("try { t(to_int(twice_op(`*=`, ") + nums[rng.below(4)] + ", 2))) } catch (e) { t(-2) }; "; break;
+        default: out += std::string("try { t(to_int(twice_op(`-=`, ") + nums[rng.below(4)] + ", a))) } catch (e) { t(-1) }; "; break;
+        }
+        ret_expr = lit_int();
+        return "";
+      }
       case 15:
       case 16: {
         // a shared helper whose loop node serves strings, vectors and a user-defined sequence that was defined
@@ -203,7 +225,9 @@ namespace {
                         "def tb(b) { if (b) { t(1) } else { t(0) } }\n"
                         "def relam(h) { var r = 0; try { r = h() } catch (e) { r = h(5) }; h = fun() { 99 }; return r }\n"
                         "def loopit(c) { var acc = \"\"; for (x : c) { acc += to_string(x); acc += \",\" }; return acc }\n"
-                        "def late_helper(x) { return 1000 + x }\n";
+                        "def late_helper(x) { return 1000 + x }\n"
+                        "def addfn(n) { `+=`(n, 5); return n }\n"
+                        "def twice_op(op, x, y) { op(x, y); return x }\n";
 
   // definitions the embedder adds AFTER some code has already been evaluated (the engine under test evaluates the
   // warm-up calls first; a pristine reference engine has everything defined before its single call)
@@ -234,6 +258,14 @@ namespace {
                }
              }),
              "cb");
+      e->add(fun([fn](int site, int v) {
+               sim_yield(7, nullptr);
+               if ((*fn)[size_t(sim_self() + 1)] == site) {
+                 throw std::runtime_error("injected");
+               }
+               return v;
+             }),
+             "cbv");
       e->eval(PRELUDE);
     }
     void late_defs() { e->eval(LATE_DEFS); }
